@@ -742,7 +742,23 @@ func (e *Env) evalQuantParts(n *CQuant) (string, string, string, string) {
 			rng = "(and (<= " + lo + " " + bound + ") (< " + bound + " " + hi + "))"
 		}
 	} else {
-		t := e.resolveType(n.Typ)
+		var t types.Type
+		if strings.HasPrefix(n.Typ, "keyof(") && strings.HasSuffix(n.Typ, ")") {
+			// forall k keyof(m): the key type of the map expression m (needed when the key
+			// type is declared inside a function and has no package-level name)
+			me, err := parseCExpr(n.Typ[len("keyof(") : len(n.Typ)-1])
+			if err != nil {
+				e.fail("bad keyof(): %v", err)
+			}
+			mv := e.eval(me)
+			mt, ok := mv.T.Underlying().(*types.Map)
+			if !ok {
+				e.fail("keyof() needs a map")
+			}
+			t = mt.Key()
+		} else {
+			t = e.resolveType(n.Typ)
+		}
 		sortName = x.s.sortOf(t)
 		ce.names[n.Var] = V{T: t, S: bound}
 		rng = x.s.typeInv(t, bound)
